@@ -9,6 +9,10 @@ CONSTANTS
   DevDup = TRUE
   DevClash = TRUE
   DevBmDang = TRUE
+  DevReach = TRUE
+  DevZero = TRUE
+  DevFit = "panic"
+  Limit = 20
   Allowed = {"ok", "bookmark.chain", "dangling.capture", "dangling.capture.pageorder", "panic.empty0"}
   Emit = TRUE
   EmitMod = 1
